@@ -371,4 +371,34 @@ example :
     (AL.get? s1.insts i.short).map (·.healthy) = some false ∧ AL.get? s2.insts i.short = none := by
   decide
 
+
+/-- **a heartbeat never changes what a registered instance is**: `PUT /instance/beat` sends an update tag with nothing
+set (and `ephemeral = true` unless the client says otherwise); for a registered instance the stored persistence class,
+enabled flag and weight stay those of the registration - so a persistent instance that receives beats stays outside the
+heartbeat clock (`persistent_grpc_never_expire`), and the persistent set is not touched -/
+theorem beat_keeps_persistence (s : Svc) (inst old : Inst) (t : Tag) (ht : t.isNone = true)
+    (hold : AL.get? s.insts inst.short = some old) (fromSync : Bool) :
+    ∃ fin, AL.get? (s.updateInstance inst (some t) fromSync).1.insts inst.short = some fin ∧
+      fin.ephemeral = old.ephemeral ∧ fin.enabled = old.enabled ∧ fin.weight = old.weight ∧
+      (s.updateInstance inst (some t) fromSync).1.perpetual = s.perpetual ∧
+      (s.updateInstance inst (some t) fromSync).2.1 = UpdType.updateTime := by
+  unfold Svc.updateInstance
+  rw [hold]
+  have hk : (applyTag (keepOwner inst old) old (some t)).1.short = inst.short := by
+    rw [applyTag_short, keepOwner_short]
+  refine ⟨(applyTag (keepOwner inst old) old (some t)).1, ?_, ?_, ?_, ?_, ?_, ?_⟩
+  · simp only [Svc.replaceInst]; rw [← hk]; exact AL.get?_set_same _ _ _
+  · simp [applyTag, ht]
+  · simp [applyTag, ht]
+  · simp [applyTag, ht]
+  · simp only [Svc.replaceInst]
+    have he : (applyTag (keepOwner inst old) old (some t)).1.ephemeral = old.ephemeral := by simp [applyTag, ht]
+    rw [he]
+    cases old.ephemeral <;> simp
+  · simp [applyTag, ht]
+
+/-- the beat handler's tag is such a tag -/
+example : ({ weight := false, metadata := false, enabled := false, ephemeral := false, fromUpdate := false } : Tag).isNone = true := by
+  decide
+
 end RNacos.Props.C13
